@@ -241,12 +241,42 @@ func sliceText(e *Expr) string {
 	return b.String()
 }
 
+// bracketTail: right-hand sides of a projection that start with a bracket and
+// follow it without a dot: a[*][0], a[*][?p], a[*][*].x
+func bracketTail(e *Expr) (string, bool) {
+	switch e.K {
+	case KIndex:
+		if e.C[0] == nil {
+			return "[" + strconv.Itoa(e.N[0]) + "]", true
+		}
+	case KFilter:
+		if e.C[0] == nil && e.C[2] == nil {
+			return "[?" + argText(e.C[1]) + "]", true
+		}
+	case KProj:
+		if e.C[0] == nil {
+			s := "[*]"
+			if e.C[1] != nil {
+				if t, ok := tailText(e.C[1]); ok {
+					return s + "." + t, true
+				}
+				return "", false
+			}
+			return s, true
+		}
+	}
+	return "", false
+}
+
 func rhs(e *Expr) string {
 	if e == nil {
 		return ""
 	}
 	if t, ok := tailText(e); ok {
 		return "." + t
+	}
+	if t, ok := bracketTail(e); ok {
+		return t
 	}
 	// not expressible as a chain: stop the projection and map instead is not
 	// equivalent, so the generator never builds this; render defensively with
@@ -614,11 +644,24 @@ type analysis struct {
 	Enum       bool // enumerates object members somewhere
 	MultiFault bool // >= 2 fallible children under a map-iterated construct
 	MapIter    bool // iterates a Go map somewhere (hash, let, merge, object ==, enumeration)
+	AnyU       bool // some sub-expression is order-sensitive downstream of an enumeration
 }
 
 type env map[string]*Mode
 
+// mode wraps mode0: a U anywhere poisons the whole expression, because a
+// sub-expression whose VALUE is discarded (left of a pipe whose right side is
+// a literal, an unused let binding, ...) still decides whether the call fails,
+// and for an order-sensitive sub-expression that may depend on the map order.
 func (a *analysis) mode(e *Expr, cur *Mode, vars env) *Mode {
+	m := a.mode0(e, cur, vars)
+	if m.K == 'U' && e != nil {
+		a.AnyU = true
+	}
+	return m
+}
+
+func (a *analysis) mode0(e *Expr, cur *Mode, vars env) *Mode {
 	if e == nil {
 		return cur
 	}
@@ -1138,6 +1181,9 @@ func fallible(e *Expr) bool {
 func Analyze(e *Expr) (*Mode, analysis) {
 	var a analysis
 	m := a.mode(e, mD, env{})
+	if a.AnyU {
+		m = mU
+	}
 	return m, a
 }
 
